@@ -248,6 +248,90 @@ class Sched:
         return self.results
 
 
+class FocusSched(Sched):
+    """Pre-emptions only at FOCUS points: `focus(tag)` says whether the statement a thread is about to execute (its tick tag) is one.
+    schedule: list of (focus_index, k) - when the focus_index-th focus arrival (counted globally, in order of occurrence) happens,
+    the arriving thread is suspended BEFORE that statement and the (k+1)-th other runnable thread runs. Entries whose index is never
+    reached make the schedule unrealisable (InfeasibleSchedule), as do entries without a runnable target."""
+
+    def __init__(self, entries, schedule, focus, max_steps=8000):
+        super().__init__(entries, [], max_steps=max_steps)
+        self.focus = focus
+        self.focus_schedule = list(schedule)
+        self.focus_arrivals = []
+        self.step_schedule = []  # the same pre-emptions as (step, k) entries of the plain scheduler (for the real-thread replay)
+
+    def run(self):
+        n = len(self.entries)
+        gens = [self._main(i) for i in range(n)]
+        alive = [True] * n
+        blocked = [None] * n
+        prev = _ACTIVE[0]
+        _ACTIVE[0] = self
+        step = 0
+        cur = 0
+        fired = set()
+        try:
+            while any(alive):
+                def runnable(t):
+                    return alive[t] and (blocked[t] is None or blocked[t].owner is None or blocked[t].owner == t)
+
+                if not runnable(cur):
+                    cands = [t for t in range(n) if runnable(t)]
+                    if not cands:
+                        raise Deadlock([(t, id(blocked[t])) for t in range(n) if alive[t]])
+                    cur = cands[0]
+                self.current = cur
+                blocked[cur] = None
+                try:
+                    tag = next(gens[cur])
+                    if isinstance(tag, tuple) and tag and tag[0] == "blocked":
+                        blocked[cur] = tag[1]
+                        self.trace.append((cur, "blocked"))
+                    else:
+                        self.trace.append((cur, tag))
+                        if self.focus(tag):
+                            fi = len(self.focus_arrivals)
+                            self.focus_arrivals.append((cur, tag))
+                            for j, (f_, k) in enumerate(self.focus_schedule):
+                                if f_ == fi:
+                                    others = [u % n for u in range(cur + 1, cur + n) if runnable(u % n)]
+                                    if not (0 <= k < len(others)):
+                                        raise InfeasibleSchedule((f_, k))
+                                    fired.add(j)
+                                    self.preemptions_used += 1
+                                    self.step_schedule.append((step + 1, k))
+                                    cur = others[k]
+                except StopIteration as e:
+                    alive[cur] = False
+                    self.results[cur] = ("ok", e.value)
+                    self.trace.append((cur, "done"))
+                except (InfeasibleSchedule, Deadlock):
+                    raise
+                except Exception as e:  # noqa - outcome of the logical thread
+                    if type(e).__module__.startswith("crosshair"):
+                        raise
+                    alive[cur] = False
+                    self.results[cur] = ("exc", e)
+                    self.trace.append((cur, "raised:" + type(e).__name__))
+                step += 1
+                if step > self.max_steps:
+                    raise StepLimit(step)
+            self.steps = step
+            if len(fired) != len(self.focus_schedule):
+                raise InfeasibleSchedule([e for j, e in enumerate(self.focus_schedule) if j not in fired][0])
+        finally:
+            for i, g in enumerate(gens):
+                self.current = i
+                try:
+                    g.close()
+                except Exception:  # noqa
+                    pass
+            self.current = None
+            _ACTIVE[0] = prev
+        return self.results
+
+
 # ------------------------------------------------------------------------------------------------
 # H: real threads, one step granted at a time
 # ------------------------------------------------------------------------------------------------
